@@ -382,7 +382,7 @@ func (db *DB) OpenTransaction() (*Transaction, error) {
 		mem: db.mpoolGet(0),
 	}
 	tr.mem.incref()
-	db.tr = tr
 	verifEvent(204, 3, 0)
+	db.tr = tr
 	return tr, nil
 }
